@@ -870,7 +870,13 @@ pub fn run_libfuzzer(
                 out.infra_errors.push(format!("libFuzzer reported memory exhaustion for {} (not replayed in process)", a.display()));
                 continue;
             }
+            // `slow-unit-*` files are libFuzzer's notes about inputs that took more than 10 s of
+            // wall-clock time (frequent when 16 jobs share a loaded machine), not failures: they are
+            // replayed like every artifact — the in-process oracle judges hangs by CPU time — but a
+            // replay that passes is the expected outcome for them
+            let note_only = name.starts_with("slow-unit-");
             match catch(|| replay(&bytes, &mut out.stats)) {
+                Ok(Ok(())) if note_only => out.stats.label("libfuzzer:slow-unit-note-replayed-ok"),
                 Ok(Ok(())) => out
                     .infra_errors
                     .push(format!("libFuzzer artifact {} does not fail when replayed in process", a.display())),
